@@ -578,6 +578,28 @@ fn plan_words(p: &Plan) -> Vec<Vec<Op>> {
             }
         }
     }
+    // every prefix of a few LONG structured histories (more than ten files, several merges and
+    // reopens in a row, a merge of merge outputs): each prefix is a word, so every operation of the
+    // history gets its crash points / fault positions
+    let a1 = Op::Set(0, 0);
+    let a2 = Op::Set(0, 1);
+    let b1 = Op::Set(1, 0);
+    let bb = Op::Set(1, 4);
+    let da = Op::Del(0);
+    let db = Op::Del(1);
+    let histories: Vec<Vec<Op>> = vec![
+        vec![a1, b1, a2, db, b1, a1, Op::Merge, a2, da, Op::Merge, Op::Reopen, b1, Op::Merge, Op::Merge, Op::Reopen, a1],
+        vec![a1, a2, a1, a2, b1, a1, a2, a1, a2, a1, b1, a2, Op::Merge, a1, Op::Reopen, Op::Merge, da, Op::Reopen],
+        vec![bb, a1, Op::Merge, bb, da, Op::Merge, Op::Reopen, Op::Reopen, a2, Op::Merge],
+    ];
+    let have: std::collections::HashSet<Vec<Op>> = words.iter().cloned().collect();
+    for h in histories {
+        for k in (p.depth + 1)..=h.len() {
+            if !have.contains(&h[..k]) {
+                words.push(h[..k].to_vec());
+            }
+        }
+    }
     words
 }
 
